@@ -96,10 +96,11 @@ def gen_history(rng, flavour):
     """flavour: 'clean' (no null tokens: the shared cells are never reachable), 'nulls', 'sparse'"""
     nulls = flavour != "clean"
     ndocs = rng.choice([2, 2, 3])
-    ops = ["D,%d" % d for d in range(ndocs)]
-    roots = {d: {} for d in range(ndocs)}      # doc -> root number -> shape
-    alive = set(range(ndocs))
-    nobj = {d: 2 for d in range(ndocs)}
+    docs = list(range(1, ndocs + 1))           # documents are numbered from 1
+    ops = ["D,%d" % d for d in docs]
+    roots = {d: {} for d in docs}              # doc -> root number -> shape
+    alive = set(docs)
+    nobj = {d: 2 for d in docs}
     nsteps = rng.randint(6, 22)
 
     def hx(d, want_container=None, leaf=False):
@@ -119,7 +120,7 @@ def gen_history(rng, flavour):
         return hx(d, leaf=True)[0]
 
     for _ in range(nsteps):
-        d = rng.choice(sorted(alive)) if alive and rng.random() < 0.95 else rng.randrange(ndocs)
+        d = rng.choice(sorted(alive)) if alive and rng.random() < 0.95 else rng.choice(docs)
         k = rng.random()
         if k < 0.22 or not roots[d]:
             r = 10 * d + rng.randint(0, 9)
@@ -157,15 +158,17 @@ def gen_history(rng, flavour):
 
 
 CORPUS = [
-    # D6 as in DESIGN section 6: one parsed null made indirect in document 0
-    "D,0;D,1;P,0,1,[.n.i1.];P,1,11,<.NK.[.n.i2.].>;M,0,r1/i0",
-    # ... then replaced: every parsed null of every document is the integer 7, and destroyed with document 0
-    "D,0;D,1;P,0,1,[.n.i1.];P,1,11,<.NK.[.n.i2.].NA.n.>;M,0,r1/i0;O,0,3,I7;X,0",
+    # D6 as in DESIGN section 6: one parsed null made indirect in document 1
+    "D,1;D,2;P,1,11,[.n.i1.];P,2,21,<.NK.[.n.i2.].>;M,1,r11/i0",
+    # ... then replaced: every parsed null of every document is the integer 7, and destroyed with document 1
+    "D,1;D,2;P,1,11,[.n.i1.];P,2,21,<.NK.[.n.i2.].NA.n.>;M,1,r11/i0;O,1,3,I7;X,1",
     # QPDF_Array.cc null_oh: a hole of a sparse array read through getArrayAsVector
-    "D,0;D,1;P,0,1,[.n.i1.r7.];P,1,11,[.z101.i5.];M,1,r11/v0;H,1,12,r11/v1;M,0,r1;W,0;J,1;A,1,r11,U;A,0,r1,I4",
+    "D,1;D,2;P,1,11,[.n.i1.r7.];P,2,21,[.z101.i5.];M,2,r21/v0;H,2,22,r21/v1;M,1,r11;W,1;J,2;A,2,r21,U;A,1,r11,I4",
     # ownership check trips in the OTHER document
-    "D,0;D,1;P,0,1,[.n.];P,1,11,[.n.i3.];M,0,r1/i0;A,1,r11,r11/i0",
-    "D,0;D,1;P,0,1,<.NA.n.NB.i1.>;P,1,11,<.NA.n.>;O,0,3,r1/kA;M,0,r1/kA;K,1,r11,B,r11/kA",
+    "D,1;D,2;P,1,11,[.n.];P,2,21,[.n.i3.];M,1,r11/i0;A,2,r21,r21/i0",
+    "D,1;D,2;P,1,11,<.NA.n.NB.i1.>;P,2,21,<.NA.n.>;O,1,3,r11/kA;M,1,r11/kA;K,2,r21,B,r21/kA",
+    # the shared null becomes a reference into document 1; document 2 then navigates through it
+    "D,1;D,2;P,1,11,[.n.<.NA.i1.>.];P,2,21,[.n.];M,1,r11/i1;O,1,3,r11/i0;K,2,r21/i0,B,I5;H,2,22,r21/i0/kA",
 ]
 
 
@@ -306,7 +309,7 @@ def part_seq(chk, drv, runner):
     for idx in solo_jobs:
         h = hists[idx]
         nd = sum(1 for o in h.split(";") if o.startswith("D,"))
-        for d in range(nd):
+        for d in range(1, nd + 1):
             sl.append("iso " + project(h, d))
             meta.append((idx, d))
     sres = common.run_lines(drv, sl, shards=4)
